@@ -94,7 +94,13 @@ func (f *finisher) worker(workerID string) {
 			return
 		case <-controlChans.PauseCh:
 			logger.Debug("received pause event")
-			controlChans.ResumeCh <- struct{}{}
+			// A stop request must also reach a paused worker
+			select {
+			case <-f.ctx.Done():
+				logger.Debug("shutting down while paused")
+				return
+			case controlChans.ResumeCh <- struct{}{}:
+			}
 			logger.Debug("received resume event")
 		case seed, ok := <-f.inputCh:
 			if ok {
